@@ -76,7 +76,7 @@ crypto ca certificate map ca-map-1-DRC-0 20
 tunnel-group VPN-tunnel-1-DRC-0 type remote-access
 tunnel-group VPN-tunnel-1-DRC-0 ipsec-attributes
  trust-point TP1
-tunnel-group-map ca-map-1-DRC-0 30 VPN-tunnel-1-DRC-0
+tunnel-group-map ca-map-1-DRC-0 20 VPN-tunnel-1-DRC-0
 `, `
 crypto ca certificate map ca-map-1 10
  subject-name attr ea co @Sub1.example.com
